@@ -250,6 +250,19 @@ theorem raft_verify_sound (s : RSys) (w : Bool) (ops : List Op) (store : Store)
   simp only [verifyReadFull, beq_iff_eq] at this
   rw [this, hinv, hsnap]
 
+/-- **the start index must not be later than the snapshot** (seeded change C08-4). `raft_commit_reads_current`
+rests on `beginTx` taking the index *before* (here: together with) the snapshot: every write the snapshot does not
+contain is then in the verification window. With the index sampled after the snapshot (`beginTxLateIndex`) a write
+applied in between is in neither: the transaction reads the old value of `k`, writes, and its commit is accepted
+although `k` changed — a lost update. The correspondence drives exactly this schedule (`raft-beginrace`). -/
+theorem raft_begin_late_index_cex :
+    ∃ (s s' : RSys) (k : Key) (t : RTxn),
+      t = (beginTxLateIndex s s' true).applyAll [.get k, .put "j" "ee"] ∧
+      (t.commit s').2.2.2 = .ok ∧ t.haveWritten = true ∧
+      hashOf (sget s'.store k) ≠ hashOf (sget t.snap k) :=
+  ⟨{ store := [("k", "01")], wlog := [["k"]], txns := [] },
+   { store := [("k", "02")], wlog := [["k"], ["k"]], txns := [] }, "k", _, rfl, by decide, by decide, by decide⟩
+
 /-- the exact statement one would want: verification passing ⇒ the VALUE (presence included) is unchanged -/
 def raft_verify_sound_full : Prop :=
   ∀ (s : RSys) (w : Bool) (ops : List Op) (store : Store),
